@@ -112,12 +112,17 @@ func (d *PathDecoder) decodeReferenceTargetsForBody(body hcl.Body, parentBlock *
 
 	for _, attr := range content.Attributes {
 		if bodySchema.Extensions != nil {
-			if bodySchema.Extensions.Count && attr.Name == "count" && content.RangePtr != nil {
-				refs = append(refs, countIndexReferenceTarget(attr, *content.RangePtr))
+			if bodySchema.Extensions.Count && attr.Name == "count" {
+				// the body range is not available for JSON
+				if content.RangePtr != nil {
+					refs = append(refs, countIndexReferenceTarget(attr, *content.RangePtr))
+				}
 				continue
 			}
-			if bodySchema.Extensions.ForEach && attr.Name == "for_each" && content.RangePtr != nil {
-				refs = append(refs, forEachReferenceTargets(attr, *content.RangePtr)...)
+			if bodySchema.Extensions.ForEach && attr.Name == "for_each" {
+				if content.RangePtr != nil {
+					refs = append(refs, forEachReferenceTargets(attr, *content.RangePtr)...)
+				}
 				continue
 			}
 		}
